@@ -34,8 +34,16 @@ fn size_classes(block: usize, cap: u64) -> Vec<usize> {
     v.into_iter().map(|x| x as usize).collect()
 }
 
-fn content(i: usize, size: usize, shared: bool) -> Vec<u8> {
-    let salt = if shared { 0 } else { i + 1 };
+/// File contents: 0 = distinct per entry, 1 = a function of the size only (two files of one size
+/// are duplicates), 2 = periodic in the block size and independent of entry and size: every full
+/// block of every file is the same block, and a small file equals the tail block (or a full
+/// block) of a larger one - the same block content reached through the large-file path and
+/// through the small-file combiner within one backup.
+fn content(i: usize, size: usize, mode: u8, block: usize) -> Vec<u8> {
+    if mode == 2 {
+        return (0..size).map(|j| (((j % block.max(1)) * 31 + 7) % 251) as u8).collect();
+    }
+    let salt = if mode == 1 { 0 } else { i + 1 };
     (0..size).map(|j| ((j * 31 + salt * 37 + size) % 251) as u8).collect()
 }
 
@@ -51,27 +59,33 @@ fn layout_cases(n: usize, out: &mut Vec<Case>) {
             for len in 1..=n_here {
                 let total = nclass.pow(len as u32);
                 for code in 0..total {
-                    for shared in [false, true] {
-                        if shared {
-                            // only meaningful if two files have the same size
+                    for mode in [0u8, 1, 2] {
+                        let shared = mode == 1;
+                        if mode > 0 {
+                            // 1: only meaningful if two files have the same size
+                            // 2: only meaningful with at least two non-empty files
                             let mut k = code;
                             let mut seen = std::collections::BTreeSet::new();
                             let mut dup = false;
+                            let mut files = 0;
                             for _ in 0..len {
                                 let c = k % nclass;
                                 k /= nclass;
+                                if c >= 2 && sizes[c - 2] > 0 {
+                                    files += 1;
+                                }
                                 if c >= 2 && !seen.insert(c) {
                                     dup = true;
                                 }
                             }
-                            if !dup {
+                            if (mode == 1 && !dup) || (mode == 2 && (files < 2 || block >= (1 << 20))) {
                                 continue;
                             }
                         }
                         let sizes = sizes.clone();
                         let opts = BOpts::new(hunk, block, cap);
                         out.push(Case {
-                            tag: format!("layout block={block} cap={cap} hunk={hunk} len={len} code={code} shared={shared}"),
+                            tag: format!("layout block={block} cap={cap} hunk={hunk} len={len} code={code} shared={shared}{}", if mode == 2 { " aligned" } else { "" }),
                             opts,
                             sweep: "layout",
                             tree: Box::new(move || {
@@ -85,7 +99,7 @@ fn layout_cases(n: usize, out: &mut Vec<Case>) {
                                     let node = match c {
                                         0 => Node::dir(mt),
                                         1 => Node::symlink(&format!("e{}", (i + 1) % len), mt),
-                                        _ => Node::file(&content(i, sizes[c - 2], shared), mt),
+                                        _ => Node::file(&content(i, sizes[c - 2], mode, block), mt),
                                     };
                                     t.insert(name, node);
                                 }
